@@ -222,6 +222,21 @@ func mGenFiles() []*mFile {
 			f2 := newFile()
 			f2.decls = append(f2.decls, mDecl{extend: true, name: zzverif.Str("type", 1, n, mNames), rels: []mRel{rel()}})
 		}
+	case 3:
+		// two base types with a relation each, two files extending (symbolic) types
+		f0 := newFile()
+		f0.decls = append(f0.decls, mDecl{name: zzverif.Str("type", 1, n, mNames), rels: []mRel{rel()}}, mDecl{name: zzverif.Str("type", 1, n, mNames), rels: []mRel{rel()}})
+		for k := 0; k < 2; k++ {
+			f := newFile()
+			f.decls = append(f.decls, mDecl{extend: true, name: zzverif.Str("type", 1, n, mNames), rels: []mRel{rel()}})
+		}
+	case 4:
+		// one extension block with two relations (prefix-related names possible) on a type that has relations
+		f0 := newFile()
+		f0.decls = append(f0.decls, mDecl{name: "t", rels: []mRel{{name: "z", form: 1}}})
+		f1 := newFile()
+		f1.decls = append(f1.decls, mDecl{extend: true, name: "t", rels: []mRel{
+			{name: zzverif.Str("rel", 1, 2, mNames), form: 0}, {name: zzverif.Str("rel", 1, 2, mNames), form: 1}}})
 	case 2:
 		f0 := newFile()
 		f0.decls = append(f0.decls, mDecl{name: zzverif.Str("type", 1, n, mNames)})
@@ -541,6 +556,11 @@ func mCheckMerge(files []*mFile, schema string) (*openfgav1.AuthorizationModel, 
 			}
 			zzverif.Assert(mSameRewrite(u, r.form), "rewrite-unchanged")
 			md := td.GetMetadata().GetRelations()[r.name]
+			wantRestr := 1
+			if r.form == 1 {
+				wantRestr = 0
+			}
+			zzverif.Assert(len(md.GetDirectlyRelatedUserTypes()) == wantRestr, "type-restrictions-of-the-relation-unchanged")
 			mod, e := utils.GetModuleForObjectTypeRelation(td, r.name)
 			zzverif.Assert(e == nil, "GetModuleForObjectTypeRelation-finds-relation")
 			if r.viaExtension {
@@ -667,7 +687,7 @@ func mTypeText(td *openfgav1.TypeDefinition) string {
 				form = fmt.Sprint(f)
 			}
 		}
-		frags = append(frags, n+"="+form+"@"+md.GetModule()+"@"+md.GetSourceInfo().GetFile())
+		frags = append(frags, n+"="+form+fmt.Sprint(len(md.GetDirectlyRelatedUserTypes()))+"@"+md.GetModule()+"@"+md.GetSourceInfo().GetFile())
 	}
 	mSortStrings(frags)
 	sb.WriteString(strings.Join(frags, ","))
